@@ -71,6 +71,19 @@ FUNCS = [
     dict(name='IPNetwork_isub', tie='NV.Tie.net_isub', prop='C11', file='ip/__init__.py', cls='IPNetwork', func='__isub__', kind='net', params=[('num', 'int')], ret='self'),
     dict(name='IPNetwork_ipv6', tie='NV.Tie.net_ipv6', prop='C16', file='ip/__init__.py', cls='IPNetwork', func='ipv6', kind='net', params=[('ipv4_compatible', 'bool')], ret='opt_ctor3'),
     dict(name='IPNetwork_sort_key', tie='NV.Tie.net_sort_key', prop='C12', file='ip/__init__.py', cls='IPNetwork', func='sort_key', kind='net', params=[], ret='tuple4'),
+    dict(name='BaseIP_is_ipv4_mapped', tie='NV.Tie.is_ipv4_mapped', prop='C16', file='ip/__init__.py', cls='BaseIP', func='is_ipv4_mapped', kind='addr', params=[], ret='bool'),
+    dict(name='BaseIP_is_ipv4_compat', tie='NV.Tie.is_ipv4_compat', prop='C16', file='ip/__init__.py', cls='BaseIP', func='is_ipv4_compat', kind='addr', params=[], ret='bool'),
+    dict(name='IPAddress_key', tie='NV.Tie.addr_key', prop='C12', file='ip/__init__.py', cls='IPAddress', func='key', kind='addr', params=[], ret='tuple2'),
+    dict(name='IPAddress_sort_key', tie='NV.Tie.addr_sort_key', prop='C12', file='ip/__init__.py', cls='IPAddress', func='sort_key', kind='addr', params=[], ret='tuple3'),
+    dict(name='IPAddress_int', tie='NV.Tie.addr_int', prop='C14', file='ip/__init__.py', cls='IPAddress', func='__int__', kind='addr', params=[], ret='int'),
+    dict(name='IPAddress_index', tie='NV.Tie.addr_index', prop='C14', file='ip/__init__.py', cls='IPAddress', func='__index__', kind='addr', params=[], ret='int'),
+    dict(name='IPNetwork_key', tie='NV.Tie.net_key', prop='C12', file='ip/__init__.py', cls='IPNetwork', func='key', kind='net', params=[], ret='tuple3'),
+    dict(name='IPRange_first', tie='NV.Tie.rng_first', prop='C10', file='ip/__init__.py', cls='IPRange', func='first', kind='rng', params=[], ret='int'),
+    dict(name='IPRange_last', tie='NV.Tie.rng_last', prop='C10', file='ip/__init__.py', cls='IPRange', func='last', kind='rng', params=[], ret='int'),
+    dict(name='IPRange_key', tie='NV.Tie.rng_key', prop='C12', file='ip/__init__.py', cls='IPRange', func='key', kind='rng', params=[], ret='tuple3'),
+    dict(name='IPAddress_set_value', tie='NV.Tie.addr_set_value', prop='C14', file='ip/__init__.py', cls='BaseIP', func='_set_value', kind='addr', params=[('value', 'int')], ret='self'),
+    dict(name='IPNetwork_set_value', tie='NV.Tie.net_set_value', prop='C02', file='ip/__init__.py', cls='BaseIP', func='_set_value', kind='net', params=[('value', 'int')], ret='self'),
+    dict(name='IPNetwork_set_prefixlen', tie='NV.Tie.net_set_prefixlen', prop='C02', file='ip/__init__.py', cls='IPNetwork', func='_set_prefixlen', kind='net', params=[('value', 'int')], ret='self'),
     # `x in y`: one translation per operand class (isinstance tests are decided by the declared class)
     dict(name='IPNetwork_contains_addr', tie='NV.Tie.net_contains_addr', prop='C04', file='ip/__init__.py', cls='IPNetwork', func='__contains__', kind='net', params=[('other', 'obj:addr')], ret='bool'),
     dict(name='IPNetwork_contains_net', tie='NV.Tie.net_contains_net', prop='C04', file='ip/__init__.py', cls='IPNetwork', func='__contains__', kind='net', params=[('other', 'obj:net')], ret='bool'),
@@ -124,7 +137,7 @@ def self_cls(spec):
 def lookup_member(ctx, attr):
     """a property / method of the same class that is itself translated"""
     for s in ctx.table.values():
-        if self_cls(s) == self_cls(ctx.spec) and s['func'] == attr and s['kind'] == ctx.kind:
+        if s['func'] == attr and s['kind'] == ctx.kind and (self_cls(s) == self_cls(ctx.spec) or s['kind'] in ('net', 'rng')):
             return s
     return None
 
@@ -259,6 +272,10 @@ def ival(ctx, e):
         return '(-%s - 1)' % ival(ctx, e.operand)
     if isinstance(e, ast.Call) and isinstance(e.func, ast.Name) and e.func.id == 'int' and len(e.args) == 1 and not e.keywords:
         a = e.args[0]
+        if ctx.kind == 'rng' and attr_chain(a) == ['self', '_start']:
+            return 'lo'
+        if ctx.kind == 'rng' and attr_chain(a) == ['self', '_end']:
+            return 'hi'
         # int(self.network) etc.: the integer of a constructor tuple is its first component
         if isinstance(a, ast.Attribute) and isinstance(a.value, ast.Name) and a.value.id == 'self':
             s = lookup_member(ctx, a.attr)
@@ -278,6 +295,13 @@ def static_test(ctx, e):
     if isinstance(e, ast.Call) and isinstance(e.func, ast.Name) and e.func.id == 'isinstance' and len(e.args) == 2 \
             and isinstance(e.args[0], ast.Name) and e.args[0].id in ctx.objs and isinstance(e.args[1], ast.Name):
         return e.args[1].id in ISA[ctx.objs[e.args[0].id]]
+    if isinstance(e, ast.Call) and isinstance(e.func, ast.Name) and e.func.id == 'isinstance' and len(e.args) == 2 \
+            and isinstance(e.args[0], ast.Name) and ctx.params.get(e.args[0].id) == 'int' \
+            and isinstance(e.args[1], ast.Name) and e.args[1].id in ('_int_type', 'int'):
+        return True      # the parameter is declared an int: this translation is the int-argument case
+    if isinstance(e, ast.UnaryOp) and isinstance(e.op, ast.Not):
+        st = static_test(ctx, e.operand)
+        return None if st is None else (not st)
     return None
 
 
@@ -319,8 +343,10 @@ def prop(ctx, e):
 
 def ret_type(spec):
     r = spec['ret']
-    base = {'int': 'Int', 'bool': 'Bool', 'ctor2': 'Int × Int', 'ctor3': 'Int × Int × Int', 'tuple4': 'Int × Int × Int × Int',
+    base = {'int': 'Int', 'bool': 'Bool', 'ctor2': 'Int × Int', 'ctor3': 'Int × Int × Int',
             'opt_ctor2': 'Option (Int × Int)', 'opt_ctor3': 'Option (Int × Int × Int)'}.get(r)
+    if r.startswith('tuple'):
+        base = ' × '.join('Int' for _ in range(int(r[5:])))
     if r == 'self':
         base = ' × '.join('Int' for _ in KINDS[spec['kind']][1])
     return base
@@ -385,6 +411,8 @@ def block(ctx, stmts, ind, loop=None):
             return '%s%s fuel %s' % (pad, loop[0], ' '.join(loop[1]))
         if ctx.spec['ret'] in ('opt_ctor2', 'opt_ctor3'):
             return pad + wrap_ok(ctx, 'none')
+        if ctx.spec['ret'] == 'self':      # a setter: returns None, the caller sees the stored fields
+            return pad + wrap_ok(ctx, '(' + ', '.join(KINDS[ctx.kind][1]) + ')')
         raise Untranslatable('function can fall off its end')
     s, rest = stmts[0], stmts[1:]
     if isinstance(s, ast.Expr) and isinstance(s.value, ast.Constant) and isinstance(s.value.value, str):
